@@ -150,6 +150,6 @@ ASSUME TableSane
 ASSUME CasesSane
 GroupSeq == SetToSeq(Groups)
 CaseSeq == FlattenSeq([k \in 1..Len(GroupSeq) |-> SetToSeq({Describe(x) : x \in GroupCases(GroupSeq[k])})])
-ASSUME PrintT(<<"CASES", NumCases, Len(CaseSeq)>>)
+ASSUME PrintT(<<"CASES", NumCasesOf(Groups), Len(CaseSeq)>>)
 ASSUME ndJsonSerialize("cases.ndjson", CaseSeq)
 =============================================================================
